@@ -277,6 +277,13 @@ func (c *C02Case) Run() string {
 					v, lerr = t.Slice(sl...)
 				case "fresh": // an unrelated tensor object is turned into the view (all its metadata is overridden)
 					v, lerr = t.SliceInto(tensor.New(tensor.WithShape(5), tensor.Of(tensor.Byte)), sl...)
+				case "freshT": // ... one that was in use before: a lazy transposition is still pending on it
+					dst := tensor.New(tensor.WithShape(2, 3), tensor.Of(tensor.Float64))
+					if terr := dst.T(); terr != nil {
+						lerr = terr
+						return
+					}
+					v, lerr = t.SliceInto(dst, sl...)
 				case "view": // a view object of the same source is recycled
 					pv, perr := t.Slice()
 					if perr != nil {
@@ -363,6 +370,27 @@ func (c *C02Case) Run() string {
 		}
 		if msg := metaInvariant(vd); msg != "" {
 			return desc + ": " + msg
+		}
+		// a recycled view object carries nothing over from its earlier life: transposing it lazily and
+		// undoing that addresses the same elements again
+		if st.Into != "" && len(got) >= 2 && minInts(got) >= 2 {
+			var terr error
+			if pan := try(func() { terr = vd.T() }); pan != "" || terr != nil {
+				return desc + fmt.Sprintf(": T() of the recycled view failed: %v %v", pan, terr)
+			}
+			rev := make([]int, len(got))
+			for i := range rev {
+				rev[i] = len(got) - 1 - i
+			}
+			if msg := compareAt(vd, want.Permute(rev), bitEqVal); msg != "" {
+				return desc + ": T() of the recycled view: " + msg
+			}
+			if pan := try(func() { vd.UT() }); pan != "" {
+				return desc + ": UT() of the recycled view panicked: " + pan
+			}
+			if msg := compareAt(vd, want, bitEqVal); msg != "" {
+				return desc + ": T() and UT() of the recycled view: " + msg
+			}
 		}
 		// materialised copy has the same elements
 		var mat tensor.Tensor
@@ -660,8 +688,8 @@ func genC02Prog(rt *rapid.T, shape []int, depth int, sweepAxis int) []C02Step {
 		}
 		specs = avoidEmptyAndF2(cur, specs)
 		into := ""
-		if k := rapid.IntRange(0, 9).Draw(rt, "into"); k < 3 {
-			into = []string{"fresh", "view", "self"}[k]
+		if k := rapid.IntRange(0, 9).Draw(rt, "into"); k < 4 {
+			into = []string{"fresh", "view", "self", "freshT"}[k]
 		}
 		prog = append(prog, C02Step{Op: "slice", Specs: specs, Via: rapid.SampledFrom([]string{"RS", "S"}).Draw(rt, "via"), Into: into})
 		cur = modelShapeAfter(cur, specs)
@@ -770,4 +798,14 @@ func (c *C02Sweep) Run() string {
 	}
 	rec.ClassN("sweep-specs", n)
 	return ""
+}
+
+func minInts(s []int) int {
+	m := s[0]
+	for _, x := range s[1:] {
+		if x < m {
+			m = x
+		}
+	}
+	return m
 }
